@@ -132,8 +132,15 @@ class C19(Prop):
                 plan["via"] = "direct"  # limit_rps=0 reads as "no limit" for a session: nothing is claimed
             return plan
         if family == "session":
-            ver = rng.choice(["v1", "v2c", "v2c"])
-            sess = community_session(rng, ver)
+            ver = rng.choice(["v1", "v2c", "v2c", "v3"])
+            agent_v3 = None
+            if ver == "v3":
+                from .base import v3_setup
+
+                agent_v3, sess = v3_setup(rng, rng.choice(["md5", "sha", "noauth"]), discover=rng.random() < 0.7, ktypes=["localized"])
+                agent_v3["time_window"] = False
+            else:
+                sess = community_session(rng, ver)
             sess["max_repetitions"] = rng.choice([1, 2])
             rps = rng.choice([1, 2, 3, 7, 10, 100, 1000, 0.5, 33.3, 2000, 10000, 1e6, 999.5])
             sess["limit_rps"] = rps
@@ -147,12 +154,19 @@ class C19(Prop):
                 if g:
                     ops.append({"op": "idle", "s": 0, "ns": g})
                 opid += 1
-                if rng.random() < 0.8:
+                if ver == "v3" and rng.random() < 0.5:
+                    ops.append({"id": opid, "s": 0, "op": "refresh"})  # refresh requests are requests too
+                elif rng.random() < 0.8:
                     ops.append({"id": opid, "s": 0, "op": "get", "oid": rows[0][0] if rows else "1.3.6"})
                 else:
                     m = rng.choice(["getnext", "getbulk", "fetch"]) if ver != "v1" else rng.choice(["getnext", "fetch"])
+                    if ver == "v3":
+                        m = "getnext"
                     ops.append({"id": opid, "s": 0, "op": "walk", "method": m, "oid": rng.choice(["1.3.6", "1.3"]), "limit": rng.choice([3, 6, 10])})
-            return {"kind": "session", "flavour": rng.choice(["sync", "async"]), "agent": {"mib": rows, "communities": [sess["community"]]}, "sessions": [sess], "ops": ops, "latency_ns": rng.choice([1001, 1_000_001]), "rps": rps}
+            agent = {"mib": rows, "communities": [sess.get("community", "public")]}
+            if agent_v3 is not None:
+                agent.update({k: v for k, v in agent_v3.items() if k != "mib"})
+            return {"kind": "session", "flavour": rng.choice(["sync", "async"]), "agent": agent, "sessions": [sess], "ops": ops, "latency_ns": rng.choice([1001, 1_000_001]), "rps": rps}
         if family == "exhaustive-small":
             delta = rng.randint(1, 3)
             return {"kind": "exhaustive", "delta": delta, "rps": NS / delta, "t0": rng.choice([0, 5, 10**15]), "length": 4 if (tier == "quick" or delta == 3) else 5}
